@@ -105,7 +105,16 @@ def make_case(rng, li, lib):
     tail = []
     if sealed and rng.random() < 0.5:
         unsealed = [i for i in range(n) if i not in sealed]
-        tail.append({"op": "failseal", "n": rng.choice(unsealed) if unsealed and rng.random() < 0.8 else rng.randrange(n)})
+        # preferred roots: an unsealed configuration from which the walk reaches both an already sealed configuration and a generated
+        # path (the failing context raises there): what a failing seal does to what was frozen before is then really exercised
+        def _has_gen(m):
+            return any(a["decl"] == "pathgen" for a in cfggen.all_args(lib, g["nodes"][m]["cls"]))
+        directed = [i for i in unsealed if (reach(g, i) & sealed) and any(_has_gen(m) for m in reach(g, i) - sealed)]
+        ctx_directed = bool(directed)
+        if directed and rng.random() < 0.8:
+            tail.append({"op": "failseal", "n": rng.choice(directed)})
+        else:
+            tail.append({"op": "failseal", "n": rng.choice(unsealed) if unsealed and rng.random() < 0.8 else rng.randrange(n)})
         frozen = sorted(sealed)
         for _ in range(rng.choice([2, 4, 6])):
             k = rng.choice(frozen)
